@@ -88,7 +88,9 @@ def score_profile(rng, L=None, k=None, violate=None):
                 # scale down to the budget exactly (boundary) or below
                 tot = sum(s.values())
                 f = Fraction(k) / tot if rng.random() < 0.5 else Fraction(k) / tot / 2
-                s = {c: v * f for c, v in s.items()}
+                # keep every score exactly representable by Ballot (denominator <= 10^6): floor to 1e-4
+                s = {c: Fraction(math.floor(v * f * 10000), 10000) for c, v in s.items()}
+                s = {c: v for c, v in s.items() if v > 0} or {rng.choice(voted): min(Fraction(1, 10000), L)}
             break
         ballots.append({"r": None, "s": {c: common.fstr(v) for c, v in s.items()},
                         "w": gen.rand_weight(rng, "mixed")})
